@@ -114,7 +114,7 @@ class SimT3(object):
     """NFC Forum Type 3 Tag: POLLING, READ/WRITE WITHOUT ENCRYPTION on services 000Bh / 0009h."""
 
     def __init__(self, nblocks=13, nbr=4, nbw=1, ndef=b"\xD1\x01\x03\x54\x02\x65\x6E",
-                 idm=b"\x01\xFE\x11\x22\x33\x44\x55\x66", pmm=b"\x03\x01\x4B\x02\x4F\x49\x93\xFF"):
+                 idm=b"\x02\xFE\x11\x22\x33\x44\x55\x66", pmm=b"\x03\x77\x4B\x02\x4F\x49\x93\xFF"):
         self.idm, self.pmm = bytes(idm), bytes(pmm)
         self.nbr, self.nbw = nbr, nbw
         self.blocks = [bytearray(16) for _ in range(nblocks + 1)]
